@@ -45,8 +45,10 @@ def run(rep, pid, cfgs, modes='ctl-unsafe,ctl-safe,sync', module='Gen', replay_c
     """cfgs: list of (name, cfg text). Generates with TLC, replays on the real code, records violations of `pid`."""
     d = vlib.scratch('pipe-')
     try:
-        for name, text in cfgs:
-            r = vlib.run_tlc(module, name + '.cfg', extra_files={name + '.cfg': text}, timeout=3000, seed_=rep.seed)
+        for item in cfgs:
+            name, text = item[0], item[1]
+            kw = item[2] if len(item) > 2 else {}     # e.g. simulate=N, depth=D: random behaviours instead of the exhaustive enumeration
+            r = vlib.run_tlc(module, name + '.cfg', extra_files={name + '.cfg': text}, timeout=3000, seed_=rep.seed, **kw)
             vlib.tlc_must_pass(r, name)
             if r.violation:
                 # an invariant of the reference model itself failed: the model is wrong, not the code
@@ -66,7 +68,7 @@ def run(rep, pid, cfgs, modes='ctl-unsafe,ctl-safe,sync', module='Gen', replay_c
             rep.cov['distinct_nontrivial'] += res['nontrivial']
             rep.cov['traces_validated_against_impl'] += res['replays']
             rep.parts['gen:' + name] = dict(tlc_states=r.distinct, tlc_wall_s=round(r.wall, 1), cases=res['cases'], replays=res['replays'],
-                                            chains=res['chains'], mismatches_by_class=res['by_class'], exhaustive=True)
+                                            chains=res['chains'], mismatches_by_class=res['by_class'], exhaustive=not kw.get('simulate'))
             for smp in (res['samples'] or [])[:2]:
                 rep.sample(smp, maxn=4)
             notes = {}
